@@ -59,6 +59,8 @@ func Sub() *Peer        { return New(protocol.ProtoSub, protocol.ProtoPub, "sub"
 func Rep() *Peer        { return New(protocol.ProtoRep, protocol.ProtoReq, "rep", "req") }
 func Respondent() *Peer { return New(protocol.ProtoRespondent, protocol.ProtoSurveyor, "respondent", "surveyor") }
 func Pull() *Peer       { return New(protocol.ProtoPull, protocol.ProtoPush, "pull", "push") }
+func Req() *Peer        { return New(protocol.ProtoReq, protocol.ProtoRep, "req", "rep") }
+func Surveyor() *Peer   { return New(protocol.ProtoSurveyor, protocol.ProtoRespondent, "surveyor", "respondent") }
 func Bus() *Peer        { return New(protocol.ProtoBus, protocol.ProtoBus, "bus", "bus") }
 
 // NumPipes is the number of connections made so far (gone ones included).
